@@ -519,23 +519,29 @@ func TestVerifServerStart(t *testing.T) {
 			got["host"] = addr.host
 			got["port"] = addr.port
 			got["local"] = addr.IsLocal()
+			// "no key" is both an unset variable and a variable set to the empty string: both are tried and must agree
+			// (started if either starts, refused only if both are refused)
+			envs := []func(){func() { os.Setenv("FZF_API_KEY", c.Key) }}
 			if c.Key == "" {
+				envs = []func(){func() { os.Unsetenv("FZF_API_KEY") }, func() { os.Setenv("FZF_API_KEY", "") }}
+			}
+			refused := 0
+			for _, setenv := range envs {
+				setenv()
+				ch := make(chan []*action, 1)
+				// the port of the case is replaced by 0 so that the bind itself cannot collide
+				l, _, serr := startHttpServer(listenAddress{addr.host, 0}, ch, func(getParams) string { return "" })
 				os.Unsetenv("FZF_API_KEY")
-			} else {
-				os.Setenv("FZF_API_KEY", c.Key)
+				if serr == nil {
+					got["started"] = true
+					l.Close()
+				} else if strings.Contains(serr.Error(), "FZF_API_KEY") {
+					refused++
+				} else {
+					note = serr.Error()
+				}
 			}
-			ch := make(chan []*action, 1)
-			// the port of the case is replaced by 0 so that the bind itself cannot collide
-			l, _, serr := startHttpServer(listenAddress{addr.host, 0}, ch, func(getParams) string { return "" })
-			os.Unsetenv("FZF_API_KEY")
-			if serr == nil {
-				got["started"] = true
-				l.Close()
-			} else if strings.Contains(serr.Error(), "FZF_API_KEY") {
-				got["refused"] = true
-			} else {
-				note = serr.Error()
-			}
+			got["refused"] = refused == len(envs)
 		}
 		out.Put(map[string]interface{}{"id": c.Id, "got": got, "note": note})
 		return nil
